@@ -1,5 +1,5 @@
 (* C16 — Compaction never changes the latest value of any key. *)
-From KV Require Import Base Model Helpers Spec LogInv ScanProofs TrimProofs CompactProofs MultiProofs TimeProofs.
+From KV Require Import Base Model Helpers Spec LogInv ScanProofs TrimProofs CompactProofs MultiProofs TimeProofs History XHistory.
 
 (* FindUpdates is one forward pass over the live messages not newer than the cut-off, tracking the last offset
    per key: a pure fold *)
@@ -87,3 +87,12 @@ Theorem C16_one_per_key_on_monotone_times :
                 mkey x = mkey y -> x = y.
 Proof. exact compact_updates_one_per_key. Qed.
 Print Assumptions C16_one_per_key_on_monotone_times.
+
+(* compact.go Compact = CompactUpdates, then CompactDeletes unless the first failed (then GC): in any state of a handle
+   and for any two cut-offs the log afterwards is the log before minus exactly the messages the two passes removed *)
+Theorem C16_compact_removes_exactly_what_its_passes_report :
+  forall (H : bytes -> Z) st ub db st' del size e,
+  Good st -> compact_both H st ub db = (st', del, size, e) ->
+  Good st' /\ abs st' = mkAlog (remove_msgs (live (abs st)) del) (anext (abs st)).
+Proof. exact compact_both_good. Qed.
+Print Assumptions C16_compact_removes_exactly_what_its_passes_report.
